@@ -5,6 +5,7 @@ mod misc;
 mod mocks;
 mod models;
 mod prog;
+mod ptr16;
 mod timg;
 
 use std::io::{BufRead, Write};
@@ -51,6 +52,7 @@ fn main() {
             "colorsum" => misc::colorsum(&mut t),
             "timg" => timg::timg(&mut t),
             "timgp" => timg::timgp(&mut t),
+            "ptr16" => ptr16::ptr16(&mut t),
             "spi" => l2::spi(&mut t),
             "par" => l2::par(&mut t),
             "bus" => l2::bus(&mut t),
